@@ -3,6 +3,7 @@ import math
 from collections import Counter, defaultdict
 
 from ..runner import Oracle, V
+from .energy import step_cost_upper_bound, stored
 from ..adversary import act
 from nrel.hive.reporting.report_type import ReportType as RT
 
@@ -112,6 +113,11 @@ class C03(Oracle):
                         R[rid] = ("stranded", vid)
                         self.deadline.pop(rid, None)
                         run.probes["stranded_passenger"] += 1
+                        # "... unless that vehicle runs out of energy": it must really lack the energy for the step's leg
+                        bound = step_cost_upper_bound(v0, ctx.env, ctx.dt)
+                        if bound is not None and stored(v0) > 1.5 * bound + 1e-9:
+                            out.append(V("C03", "stranded_with_energy", k,
+                                         f"vehicle {vid} carrying {rid} went out of service holding {stored(v0)!r}; one step along its route costs at most {bound!r}"))
                     else:
                         out.append(V("C03", "diverted", k, f"vehicle {vid} carrying {rid} with route left is now {act(v1) if v1 else None} (instruction accepted: {ctx.accepted.get(vid)})"))
         # picked up and delivered in the same step / still on board: bookkeeping for 'onboard' sanity
